@@ -150,7 +150,7 @@ def run_group(profile, hs, tier, jobs, timeout_s, mem_gb, log):
         elif not checks:
             res.update(status="error", reason=e.get("exit_status", "no checks reported (out of memory / CBMC error?)"))
         else:
-            fails, covers, funcs = [], [], set()
+            fails, covers, funcs, odd = [], [], set(), []
             undetermined = 0
             for c in checks:
                 loc = c.get("location", {})
@@ -164,10 +164,12 @@ def run_group(profile, hs, tier, jobs, timeout_s, mem_gb, log):
                                   "file": f, "line": loc.get("line")})
                 elif c["status"] == "Undetermined":
                     undetermined += 1
+                elif c["status"] not in ("Success", "Unreachable"):
+                    odd.append(f"{c['status']}: {c['category']} {c['function']} {c['description'][:80]}")
             res.update(status="pass" if r["status"] == "Success" else "fail", fails=fails, covers=covers,
                        functions=sorted(funcs), undetermined=undetermined)
             if r["status"] != "Success" and not fails:
-                res.update(status="error", reason="harness failed without a failed check")
+                res.update(status="error", reason="harness failed without a failed check; undetermined=%d other=%s" % (undetermined, odd[:5]))
         results[hid] = res
     for h in hs:
         results.setdefault(h.full, {"status": "error", "reason": "harness missing from Kani output", "detail": raw[-1500:]})
